@@ -36,10 +36,12 @@ def gen_case(rng, malformed=False, maxops=25):
     ops = []
     for _ in range(rng.randint(1, maxops)):
         vid = len(views) - 1 if rng.random() < 0.45 else rng.randrange(len(views))
+        if views[vid]["n"] == 0 and rng.random() < 0.6:        # prefer views that can transfer something
+            vid = rng.randrange(len(views))
         v = views[vid]
         n = v["n"]
         k = rng.choices(["seek", "read", "write", "slice", "tell", "len", "address", "flush", "close", "free"],
-                        [22, 18, 18, 14, 5, 4, 3, 2, 2.5, 1.2])[0]
+                        [22, 18, 18, 13, 5, 4, 3, 2, 1.5, 0.6])[0]
         if k == "seek":
             wh = rng.choice([None, 0, 0, 1, 1, 2, 2, 2])
             if malformed and rng.random() < 0.3:
@@ -54,6 +56,10 @@ def gen_case(rng, malformed=False, maxops=25):
         elif k == "slice":
             a = None if rng.random() < 0.2 else _near(rng, n)
             b = None if rng.random() < 0.2 else _near(rng, n)
+            if n > 1 and rng.random() < 0.5:                   # a proper, non-empty sub-range, named either way
+                x, y = sorted(rng.sample(range(n + 1), 2))
+                a = rng.choice([x, x - n]) if x < n else x
+                b = rng.choice([y, y - n]) if y < n else rng.choice([y, None, y + 3])
             step = None if rng.random() < 0.9 else 1
             if malformed and rng.random() < 0.4:
                 step = rng.choice([2, -1, 0, 3])
@@ -136,6 +142,8 @@ def canon_model(v):
     for res, nw, calls, probe in obs:
         if res[0] == "Ok":
             x = res[1]
+            if x[0] == "@":                     # a nullary constructor in argument position
+                x = (x[1],)
             r = {"VNone": lambda: ["none"], "VInt": lambda: ["int", x[1]], "VAddr": lambda: ["addr", x[1]],
                  "VBytes": lambda: ["bytes", list(x[1])], "VView": lambda: ["view", x[1], x[2]]}[x[0]]()
         elif res[0] == "Failed":
